@@ -877,6 +877,13 @@ func (x *runner) directCase(ca *authority, thorough bool) {
 			if !same {
 				x.out.Fail(key, "Certificate.SCTList differs from the embedded list")
 			}
+			if i == 0 {
+				// no issuer in the chain / no chain at all: refused, never a panic
+				x.opLeafPre(pre, chP[:1], cp)
+				x.opLeafEmb(fin, chF[:1], cf)
+				x.opLeafPre(pre, nil, cp)
+				x.opLeafEmb(fin, nil, cf)
+			}
 			x.out.Count("class:leaf-routes")
 		}
 	}
@@ -1277,6 +1284,22 @@ func TestVerifC03(t *testing.T) {
 	x.sctListCase(ca, base, [][]byte{r.Bytes(30000), r.Bytes(35331)}, "total-65335")
 	x.sctListCase(ca, base, [][]byte{r.Bytes(30000), r.Bytes(35332)}, "total-65336")
 	x.sctListCase(ca, base, [][]byte{r.Bytes(65533)}, "total-65535")
+	// a list that RFC 6962 3.3 allows (total <= 2^16-1) embedded by hand, not through the repository's marshaller
+	for _, total := range []int{65335, 65336, 65400, 65535} {
+		item := r.Bytes(total - 2)
+		val := mk(0x04, []byte{byte(total >> 8), byte(total)}, []byte{byte((total - 2) >> 8), byte(total - 2)}, item)
+		fin := base.insertExt(len(base.exts), mkExt(oidSCT, false, val)).assemble()
+		der, err := signTBS(fin, ca.sgn.key)
+		if err != nil {
+			t.Fatal(err)
+		}
+		c, err := x509.ParseCertificate(der)
+		if c == nil || len(c.SCTList.SCTList) != 1 || !bytes.Equal(c.SCTList.SCTList[0].Val, item) {
+			x.out.Fail(fmt.Sprintf("sctlist-rfc-valid total=%d", total), fmt.Sprintf("an SCT list of %d bytes (allowed by RFC 6962 3.3: <1..2^16-1>) embedded in a certificate is not read back into Certificate.SCTList: %v", total, err))
+		}
+		x.sctDec(ca, base, val, nil)
+		x.out.Count("class:sctlist-rfc-valid-by-hand")
+	}
 	// malformed extension values
 	good, _ := sctListValue([][]byte{{1, 2, 3}, {4, 5}})
 	bad := [][]byte{
@@ -1294,6 +1317,9 @@ func TestVerifC03(t *testing.T) {
 	// non-canonical and malformed TBSCertificates
 	for i, n := 0, verifkit.N(12, 120); i < n; i++ {
 		x.variantCases(fams[i%3].root[i%2])
+	}
+	for i, n := 0, verifkit.N(3, 30); i < n; i++ {
+		x.fuzzCases(fams[i%3].root[i%2], verifkit.N(300, 1500))
 	}
 	x.leanExamples()
 	out.Add("cases:route-pairs", int64(x.n))
